@@ -143,7 +143,7 @@ def purity():
                 code = line.split("//")[0]
                 if "#![forbid(unsafe_code)]" in code.replace(" ", ""):
                     forbid = True
-                if re.search(r"\bstatic\s+(mut\s+)?[A-Z_]+\s*:|thread_local!|\b(Cell|RefCell|UnsafeCell|OnceCell|Mutex|RwLock)\s*<|\bAtomic[A-Z]\w*|\bunsafe\b", code):
+                if re.search(r"\bstatic\s+mut\b|thread_local!|\b(Cell|RefCell|UnsafeCell|OnceCell|Mutex|RwLock)\s*<|\bAtomic[A-Z]\w*|\bunsafe\b", code):
                     hits.append("%s:%d" % (os.path.relpath(p, REPO), k + 1))
     name = "C18.continuation.state_is_all_there_is"
     if hits or not forbid:
